@@ -16,14 +16,21 @@ from lib.world import safe_gc
 
 PROP = "C04"
 PROPS_FILE = "props/C04.v"
-GEN: list[str] = []
+GEN: list[str] = ["gen_readpath", "gen_stream"]
 CORRESPONDENCES = [
     "consumer:tensor_from_memoryview~rd_frombuffer",
     "plan:prepare_read~rd_read_plan",
     "call:Snapshot.restore/read_object~rd_restore",
     "sharded:ShardedTensorIOPreparer.prepare_read+execute_read_reqs~rd_restore",
     "legacy:pre-fix BatchedBufferConsumer~rd_restore(legacy)",
+    # the same real observations against the terms regenerated from the source (gen/ReadPathGen.v, gen/StreamGen.v)
+    "generated:tensor_from_memoryview~g_tensor_from_memoryview",
+    "generated:prepare_read~g_read_plan",
+    "generated:prepare_read+batch_read_requests~g_plan",
+    "generated:Snapshot.restore/read_object~g_restore",
+    "generated:sharded prepare_read+execute_read_reqs~g_restore",
 ]
+GEN_MODEL = "generated:model-builds(gen/ReadPathGen.v,model/ReadPathGenObs.v)"
 RULE = ("real committed snapshots (single process Snapshot.take into a scratch dir; two Stateful groups holding plain tensors "
         "of float32/float64/float16/bfloat16/int64/int32/int16/uint8/bool incl. 0-d and zero-length ones, two chunked "
         "tensors (chunk override 40..100 bytes), a complex64 tensor (torch_save) and a chunked complex64 tensor (torch_save chunks), python objects, primitives, a list; "
@@ -61,6 +68,8 @@ ASSUMPTIONS = [
 ]
 
 IMPORTS = "From TS Require Import model.Batch model.ReadDamage.\n"
+GIMPORTS = "From TS Require Import model.Batch model.ReadDamage model.ReadPathPrims model.ReadPathGenObs.\n"
+PLAN_TYPE = "option Z * list rd_entry"
 CALL_TYPE = "list (Z * Z * bool) * option Z * list rd_entry * Z * rd_damage * bool"
 LEG_TYPE = "list (Z * Z * bool) * list rd_leaf * Z * rd_damage * bool * bool * list Z"
 
@@ -635,6 +644,40 @@ def note_case(res: Result, cases: dict, key: str, verdict: int, meta):
     cases[key] = (verdict, meta)
 
 
+# --------------------------------------------------------------------------- hand model and generated model
+GEN_OK = {"ok": True, "detail": ""}
+
+
+def ensure_models(res: Result):
+    """The executable models must exist even when a proof of this run no longer checks (the driver's build of
+    props/C04.vo stops at the first broken file): build the two model files on their own."""
+    ok, out, _ = coqrun.make(["model/ReadDamage.vo"], timeout=600, jobs=4)
+    if not ok:
+        res.mismatches.append(Mismatch(CORRESPONDENCES[0], "model/ReadDamage.v does not build", None, coqrun.error_excerpt(out)))
+    ok, out, _ = coqrun.make(["model/ReadPathGenObs.vo"], timeout=600, jobs=4)
+    GEN_OK["ok"], GEN_OK["detail"] = ok, "" if ok else coqrun.error_excerpt(out, 12)
+    res.obligations.append(Obligation(GEN_MODEL, ok, GEN_OK["detail"]))
+
+
+def run_both(res: Result, tag: str, hand, gen, coq, in_type, describe):
+    """Evaluate the same (input, real observation) cases against the hand-written model function `hand[1]` (reported
+    under correspondence hand[0]) and against the generated model function `gen[1]` (reported under gen[0]).
+    describe(i) -> (case description, real observation) for a disagreeing case."""
+    todo = [(tag, IMPORTS, hand)] if hand else []
+    if gen and GEN_OK["ok"]:
+        todo.append((tag + "_g", GIMPORTS, gen))
+    elif gen:
+        res.mismatches.append(Mismatch(gen[0], "generated model did not build", None, GEN_OK["detail"]))
+    for tg, imports, (where, fn) in todo:
+        bad, errs = coqrun.run_cases(tg, imports, fn, coq, in_type=in_type)
+        for e in errs:
+            res.mismatches.append(Mismatch(where, "coqc error", None, e))
+        for i in bad:
+            case, impl = describe(i)
+            res.mismatches.append(Mismatch(where, case, impl, None))
+        res.traces_validated += len(coq)
+
+
 # --------------------------------------------------------------------------- consumers
 def check_consumer(ctx: Ctx, res: Result):
     import torch
@@ -664,13 +707,8 @@ def check_consumer(ctx: Ctx, res: Result):
             meta.append((dt, shape, n, ok))
             res.count("consumer.len_class", "exact" if n == full else ("short" if n < full else "long"))
     res.evaluations += len(coq)
-    bad, errs = coqrun.run_cases("C04_fb", IMPORTS, "obs_rd_frombuffer", coq, in_type="Z * list Z * Z")
-    for e in errs:
-        res.mismatches.append(Mismatch(CORRESPONDENCES[0], "coqc error", None, e))
-    for i in bad:
-        res.mismatches.append(Mismatch(CORRESPONDENCES[0], {"dtype": meta[i][0], "shape": meta[i][1], "n": meta[i][2]},
-                                       meta[i][3], None))
-    res.traces_validated += len(coq)
+    run_both(res, "C04_fb", (CORRESPONDENCES[0], "obs_rd_frombuffer"), (CORRESPONDENCES[5], "obs_g_frombuffer"), coq,
+             "Z * list Z * Z", lambda i: ({"dtype": meta[i][0], "shape": meta[i][1], "n": meta[i][2]}, meta[i][3]))
 
 
 def check_load_assumption(ctx: Ctx, res: Result):
@@ -750,12 +788,48 @@ def check_plan(ctx: Ctx, res: Result, snaps):
     res.obligations.append(Obligation("hypothesis:real-plans-have-distinct-non-empty-ranges", not dup, str(dup[:5])))
     res.obligations.append(Obligation("hypothesis:committed-manifest-ranges-consistent-with-payload", not hyp, str(hyp[:5])))
     res.evaluations += len(coq)
-    bad, errs = coqrun.run_cases("C04_plan", IMPORTS, "obs_rd_read_plan", coq, in_type="option Z * list rd_entry")
-    for e in errs:
-        res.mismatches.append(Mismatch(CORRESPONDENCES[1], "coqc error", None, e))
-    for i in bad:
-        res.mismatches.append(Mismatch(CORRESPONDENCES[1], {"kind": meta[i][0], "limit": meta[i][1]}, meta[i][2], None))
-    res.traces_validated += len(coq)
+    run_both(res, "C04_plan", (CORRESPONDENCES[1], "obs_rd_read_plan"), (CORRESPONDENCES[6], "obs_g_read_plan"), coq, PLAN_TYPE,
+             lambda i: ({"kind": meta[i][0], "limit": meta[i][1]}, meta[i][2]))
+    check_batched_plan(ctx, res, snaps)
+
+
+def check_batched_plan(ctx: Ctx, res: Result, snaps):
+    """prepare_read of real entries followed by the real batch_read_requests, against the generated planner followed by the
+    generated batch_read_requests: which requests are merged, the merged extent, the sub-range of every consumer."""
+    from torchsnapshot.batcher import BatchedBufferConsumer, batch_read_requests
+    from torchsnapshot.io_preparer import prepare_read
+    coq, meta, seen = [], [], set()
+    for S in snaps:
+        groups = [(None, list(S.entries.values()))]
+        for p, e in S.entries.items():
+            if entry_kind(e) in ("plain", "chunked"):
+                groups += [(8, [e]), (20, [e])]
+        for limit, es in groups:
+            try:
+                with quiet():
+                    rrs = [rr for e in es for rr in prepare_read(entry=e, obj_out=None, buffer_size_limit_bytes=limit)[0]]
+                    idx = {id(rr.buffer_consumer): i for i, rr in enumerate(rrs)}
+                    batched = batch_read_requests(read_reqs=list(rrs))
+            except Exception as ex:  # noqa
+                res.notes.append(f"batch_read_requests/prepare_read raised {type(ex).__name__} (limit {limit})")
+                continue
+            obs = []
+            for br in batched:
+                c = br.buffer_consumer
+                if isinstance(c, BatchedBufferConsumer):
+                    subs = [[idx[id(sc)], int(r[0]), int(r[1])] for r, sc in c.byte_range_to_buffer_consumer.items()]
+                else:
+                    subs = [[idx[id(c)]]]
+                obs.append([S.fid[br.path], list(br.byte_range) if br.byte_range is not None else [], subs])
+            inp = term((None if limit is None else Some(limit), [entry_term(e, S.fid) for e in es]))
+            if inp in seen:
+                continue
+            seen.add(inp)
+            coq.append((inp, val([obs])))
+            meta.append(({"limit": limit, "n_entries": len(es), "n_reqs": len(rrs)}, obs))
+            res.count("batched_plan.merged", sum(1 for o in obs if len(o[2][0]) == 3))
+    res.evaluations += len(coq)
+    run_both(res, "C04_bplan", None, (CORRESPONDENCES[7], "obs_g_batched_plan"), coq, PLAN_TYPE, lambda i: meta[i])
 
 
 # --------------------------------------------------------------------------- sharded entries
@@ -891,13 +965,8 @@ def check_sharded(ctx: Ctx, res: Result):
                                   "ranged": sum(1 for s in sc["shards"] if s[3]), "dmg": dmg[0], "batching": batching,
                                   "damaged": damaged}, nontrivial=damaged or dmg[0] == "trunc")
                         res.count("sharded.verdict", kind)
-    bad, errs = coqrun.run_cases("C04_sh", IMPORTS, "obs_rd_call", coq, in_type=CALL_TYPE)
-    for e in errs:
-        res.mismatches.append(Mismatch(CORRESPONDENCES[3], "coqc error", None, e))
-    for i in bad:
-        m = dict(meta[i])
-        res.mismatches.append(Mismatch(CORRESPONDENCES[3], m, coq[i][1], None))
-    res.traces_validated += len(coq)
+    run_both(res, "C04_sh", (CORRESPONDENCES[3], "obs_rd_call"), (CORRESPONDENCES[9], "obs_g_call"), coq, CALL_TYPE,
+             lambda i: (dict(meta[i]), coq[i][1]))
 
 
 # --------------------------------------------------------------------------- the pre-fix BatchedBufferConsumer
@@ -992,6 +1061,7 @@ def correspond(ctx: Ctx) -> Result:
     lvl = asyncio_log.level
     asyncio_log.setLevel(logging.CRITICAL)
     try:
+        ensure_models(res)
         check_consumer(ctx, res)
         check_load_assumption(ctx, res)
         check_sharded(ctx, res)
@@ -1015,12 +1085,8 @@ def correspond(ctx: Ctx) -> Result:
             S.close()
         keys = list(cases)
         coq = [(k, val(cases[k][0])) for k in keys]
-        bad, errs = coqrun.run_cases("C04_call", IMPORTS, "obs_rd_call", coq, in_type=CALL_TYPE)
-        for e in errs:
-            res.mismatches.append(Mismatch(CORRESPONDENCES[2], "coqc error", None, e))
-        for i in bad:
-            res.mismatches.append(Mismatch(CORRESPONDENCES[2], cases[keys[i]][1], cases[keys[i]][0], None))
-        res.traces_validated += len(coq)
+        run_both(res, "C04_call", (CORRESPONDENCES[2], "obs_rd_call"), (CORRESPONDENCES[8], "obs_g_call"), coq, CALL_TYPE,
+                 lambda i: (cases[keys[i]][1], cases[keys[i]][0]))
         res.notes.append(f"correspond wall {time.time() - t0:.0f}s; {len(coq)} distinct model cases")
     finally:
         asyncio_log.setLevel(lvl)
